@@ -48,7 +48,7 @@ type FacialFeature struct {
 	MinorPoint uint8  `json:"minorPoint"`
 	X          uint16 `json:"x"`
 	Y          uint16 `json:"y"`
-	Reserved   uint8  `json:"reserved"`
+	Reserved   uint16 `json:"reserved"`
 }
 
 type FacialInfo struct {
@@ -224,11 +224,20 @@ func parseFeatures(numFeatures uint32, r *bytes.Reader) ([]FacialFeature, error)
 
 	var i uint32
 	for i = 0; i < numFeatures; i++ {
-		feature := FacialFeature{}
-		if err := binary.Read(r, binary.BigEndian, &feature); err != nil {
+		// ISO/IEC 19794-5 feature point block (8 bytes):
+		//   type(1), point code(1: major in the high nibble, minor in the low nibble), X(2), Y(2), reserved(2)
+		var raw [8]byte
+		if _, err := io.ReadFull(r, raw[:]); err != nil {
 			return nil, fmt.Errorf("[parseFeatures] binary.Read(i:%1d) error: %w", i, err)
 		}
-		out[i] = feature
+		out[i] = FacialFeature{
+			Type:       raw[0],
+			MajorPoint: raw[1] >> 4,
+			MinorPoint: raw[1] & 0x0f,
+			X:          binary.BigEndian.Uint16(raw[2:4]),
+			Y:          binary.BigEndian.Uint16(raw[4:6]),
+			Reserved:   binary.BigEndian.Uint16(raw[6:8]),
+		}
 	}
 
 	return out, nil
